@@ -533,6 +533,7 @@ func (v *Verifier) verifyFunctionFixed(fn *ssa.Function, unrollAll int, fixLen m
 	fr := &Frame{u: u, fn: fn, fi: v.info(fn), contract: u.contract, guard: True, top: true, depth: 0}
 	for pi, p := range fn.Params {
 		pv := namedVal(p.Type(), "p!"+p.Name())
+		normStrings(pv)
 		if n, ok := u.fixLen[pi]; ok && (pv.K == VString || pv.K == VSlice) {
 			pv.Len = IntLit(n)
 			pv.Off = IntLit(0)
